@@ -287,6 +287,9 @@ func genSamplers(check string) func(r *Rng, tier string, p *Plan) {
 				p.Add(Op{K: "peers", At: at, N: int64(PickOf(r, 1, 2, 3, 4, 5, 10, 50))})
 			}
 		}
+		if workers > 1 && r.Bool(0.2) {
+			p.Add(Op{K: "reload_busy", At: r.I64n(horizon) / 1000 * 1000, I: 5000, J: int64(r.Intn(4)), S: PickOf(r, "envA", "envB", "envC"), N: int64(r.Intn(8)), M: int64(r.Intn(8))})
+		}
 		if r.Bool(0.25) {
 			// for a while the peer list cannot be read: samplers created (or
 			// re-created after a reload) meanwhile still get the cluster-size goal
